@@ -540,6 +540,21 @@ def c11_execute(case, stats, log):
                 HELD.append((rowid_word, loaded))
             stats.count("ref_to_lib_files")
             stats.count("ref_to_lib_iw%d_rw%d" % (index_word, rowid_word))
+    # (c') the documented layout has 8-byte words: another tool may store values in [2**63, 2**64) there, and the
+    #      loader must hand them back exactly (the saver's own domain ends below 2**63, the format's does not)
+    if want_entries and len(want_entries) <= 50 and case_digest(case) % 7 == 0:
+        top = 1 << 63
+        shifted = [((k[0] + top,) + tuple(k[1:]), v) for k, v in want_entries[:1]] + want_entries[1:]
+        big_common = case["common"] + top if case_digest(case) % 2 else case["common"]
+        if len({k for k, _ in shifted}) == len(shifted):
+            blob = refcodec.encode(shifted, big_common, 8, 4)
+            with disk.SimDisk(blob) as d3:
+                try:
+                    loaded = real_load(d3, case["rmode"])
+                except Exception as e:
+                    raise Violation(prop, "loader-rejects-documented-file:" + type(e).__name__, "load(values>=2^63)", repr(e))
+            compare_loaded(prop, "load(values>=2^63)", dict(case, common=big_common, entries=[[list(k), v] for k, v in shifted]), loaded, 4)
+            stats.count("ref_to_lib_values_beyond_int63")
     stats.count("profile_" + word_profile(case))
 
 
